@@ -20,7 +20,15 @@ tvars == <<tid, l, bad, vars>>
 T == Batch[tid]
 N == Len(T.events)
 C == T.chan
+(*   combine = "onoff": set_combine_stderr(True) (comb_t0 / comb_t1) and later             *)
+(*   set_combine_stderr(False) (off_t0 / off_t1) on the same channel; off_at = stderr     *)
+(*   bytes the peer had written when the second call was made; a read that began after    *)
+(*   it returned is in phase "offagain".                                                   *)
 Phase(e) == IF T.combine = "off" THEN "off"
+            ELSE IF T.combine = "onoff" THEN
+                   (IF e.t1 < T.comb_t0 THEN "off"
+                    ELSE IF e.t0 > T.off_t1 THEN "offagain"
+                    ELSE IF e.t0 > T.comb_t1 /\ e.t1 < T.off_t0 THEN "on" ELSE "moved")
             ELSE IF T.combine = "before" THEN "on"
             ELSE IF e.t1 < T.comb_t0 THEN "off"
             ELSE IF e.t0 > T.comb_t1 THEN "on" ELSE "moved"
@@ -35,6 +43,7 @@ Read ==
   /\ LET e == T.events[l] IN
        /\ got' = [got EXCEPT ![C][e.ep] = AppendRuns(@, RunsOf(e))]
        /\ swpc' = [swpc EXCEPT ![C] = Phase(e)]
+       /\ offAt' = [offAt EXCEPT ![C] = IF T.combine = "onoff" THEN T.off_at ELSE 0]
        /\ buf' = [buf EXCEPT ![C].err = IF e.ep = "err" THEN RunsOf(e) ELSE <<>>]
        /\ wire' = <<Run(C, "out", 0, 0)>>                      \* not drained yet
        /\ UNCHANGED <<sent, statusSent, combine, moved, tpc, status, pstate, shut, statusEv, reported, win>>
@@ -52,7 +61,7 @@ Final ==
   /\ statusSent' = [statusSent EXCEPT ![C] = T.status_sent]
   /\ status' = [status EXCEPT ![C] = IF T.status_got = Unread THEN None ELSE T.status_got]
   /\ reported' = [reported EXCEPT ![C] = T.status_got]       \* what recv_exit_status() returned (Unread: not called)
-  /\ UNCHANGED <<got, swpc, combine, moved, tpc, pstate, shut, statusEv, win>>
+  /\ UNCHANGED <<got, swpc, offAt, combine, moved, tpc, pstate, shut, statusEv, win>>
   /\ bad' = Fails(OutInOrder', "P_stdout_order")
             \cup Fails(ErrInOrder', "P_stderr_order")
             \cup Fails(Lossless', "P_lossless")
